@@ -159,8 +159,10 @@ Proof.
                  [mkField (Some 2) None [] 1; mkField (Some 3) None [] 1; mkField None None [] 1;
                   mkField (Some 2) None [] 1]) by (vm_compute; reflexivity).
     rewrite Et, Es. cbn [enabled_fields flat_map app]. unfold req_enabled. cbn [forallb fst snd].
-    destruct (zassoc 0 fv) as [a|]; destruct (zassoc 2 fv) as [b|];
-      repeat match goal with
-             | |- context [?x =? ?y] => destruct (Z.eqb_spec x y)
-             end; cbn; try lia.
+    destruct (zassoc 0 fv) as [a|]; [|vm_compute; discriminate].
+    destruct (Z.eqb_spec 0 a) as [<-|N0].
+    { change (1 =? 0) with false. vm_compute. discriminate. }
+    destruct (Z.eqb_spec 1 a) as [<-|N1]; [|vm_compute; discriminate].
+    destruct (zassoc 2 fv) as [b|]; [|vm_compute; discriminate].
+    destruct (Z.eqb_spec 1 b) as [<-|N2]; vm_compute; discriminate.
 Qed.
